@@ -131,6 +131,11 @@ def view_membership(views_model, merch):
     for v in views_model['views']:
         members = []
         f = v['filter']
+        # numeric variables: the file's own, shadowed by the view's
+        env = {n: e for n, e in (views_model.get('globals') or []) if re.match(r'^\d+$', e)}
+        env.update({n: e for n, e in (v.get('vars') or []) if re.match(r'^\d+$', e)})
+        for n, e in env.items():
+            f = re.sub(r'\b%s\b' % re.escape(n), e, f)
         for name, m in merch.items():
             if {t.lower() for t in m['tags']} & set(SPECIAL):
                 continue
